@@ -52,7 +52,8 @@ P = {
          "its claim (C03_agv_holds_only_its_claim_every_instance: agv_hold_b in every state of every run, SMP/Hold.v). " + TIE),
  "C04": ("Env", "Theorems (Props/C04.v; SMP/Decline, Atomic): env model - a done episode refuses steps (C04_done_raises), terminated and "
          "truncated are never both set (C04_exclusive), terminated iff the middleware result has no offers and every job lies in an "
-         "output buffer with all its operations done (C04_term_flag; all_in_output as repaired by fix 7fd110d), the reported makespan is the clock set to the latest DONE end (C04_makespan_is_clock); a job in an "
+         "output buffer with all its operations done (C04_term_flag; all_in_output as repaired by fix 7fd110d), the reported makespan is the clock (C04_makespan_is_clock) and in every terminated result of every run that clock IS the latest recorded completion - "
+         "no completion after it, one exactly at it (C04_clock_at_termination_is_the_latest_completion, SMP/Makespan.v, no hypothesis); a job in an "
          "OUTPUT buffer has all operations done in every reachable state, so a terminated episode has finished all work "
          "(C04_output_done_partial, C04_terminated_all_done_partial; SMP/OutputDone.v, invariant carried with FE and the AGV-load "
          "invariant; C04_output_done_every_instance / C04_terminated_all_done_every_instance: UNCONDITIONAL over plain runs of every "
@@ -82,7 +83,8 @@ P = {
          "every instance whose job table is classic (any buffer disciplines), the operation records of EVERY terminated "
          "run of the middleware (any actions, oracle, fuel; AGVs/setups/outages allowed) form a feasible schedule of the classic instance, "
          "so the bound is at most every upper bound of the completion times, in particular the reported makespan - the environment's "
-         "optimum cannot be below the bound and the terminal reward cannot exceed its maximum. That the environment's action space reaches an optimal schedule is "
+         "optimum cannot be below the bound and the terminal reward cannot exceed its maximum (stated for the REPORTED makespan: "
+         "C06_lower_bound_below_the_reported_makespan_every_instance, C06_terminal_reward_never_exceeds_its_maximum). That the environment's action space reaches an optimal schedule is "
          "explored (bounded tree search against brute force on small instances), not proved. Tie: the lower-bound model (extracted) is "
          "compared with calculate_lower_bound on generated and shipped instances on every run."),
  "C07": ("SM", "Theorems (Props/C07.v; SMP/Post, Offers): dispatch stamps occupied_till = now + travel(AGV position -> job's place) read "
